@@ -90,7 +90,9 @@ Definition from_slice_wf (f : fn_def) : bool :=
   has (fun e => match e with
                 | ESemi (ECall (EPath ["std"; "ptr"; "copy_nonoverlapping"]) [EMethod (EPath ["bytes"]) "as_ptr" []; EPath ["bytes_ptr"]; EPath ["len"]]) => true
                 | _ => false end) b &&
-  Nat.eqb (List.length (filter (fun e => match e with ELetS (PIdent "len" None) _ _ | ELetS (PIdent "layout" None) _ _ | ELetS (PIdent "bytes_ptr" None) _ _ => true | _ => false end) b)) 3.
+  Nat.eqb (List.length (filter (fun e => match e with ELetS (PIdent "len" None) _ _ | ELetS (PIdent "layout" None) _ _ | ELetS (PIdent "bytes_ptr" None) _ _ => true | _ => false end) b)) 3
+  (* nothing else happens: 5 lets, the header write, the copy, the result *)
+  && Nat.eqb (List.length b) 8.
 
 (* from_vec: a header of Layout::new::<Inner>() that points into the Vec's own buffer, which is
    not freed here (ManuallyDrop); len / capacity are the Vec's *)
@@ -103,7 +105,10 @@ Definition from_vec_wf (f : fn_def) : bool :=
   has (fun e => match e with ELetS (PIdent "len" None) (Some (EMethod (EPath ["bytes"]) "len" [])) None => true | _ => false end) b &&
   has (fun e => match e with ELetS (PIdent "capacity" None) (Some (EMethod (EPath ["bytes"]) "capacity" [])) None => true | _ => false end) b &&
   has (writes_inner (is_path "bytes_ptr") (is_path "len") (is_path "capacity")) b &&
-  Nat.eqb (List.length (filter (fun e => match e with ELetS (PIdent "len" None) _ _ | ELetS (PIdent "layout" None) _ _ | ELetS (PIdent "bytes_ptr" None) _ _ | ELetS (PIdent "capacity" None) _ _ => true | _ => false end) b)) 4.
+  Nat.eqb (List.length (filter (fun e => match e with ELetS (PIdent "len" None) _ _ | ELetS (PIdent "layout" None) _ _ | ELetS (PIdent "bytes_ptr" None) _ _ | ELetS (PIdent "capacity" None) _ _ => true | _ => false end) b)) 4
+  (* nothing else happens (in particular the Vec is not touched between reading its pointer and
+     its capacity): 7 lets, the header write, the result *)
+  && Nat.eqb (List.length b) 9.
 
 (* deref: exactly the header's (ptr, len) *)
 Definition deref_wf (f : fn_def) : bool :=
